@@ -56,7 +56,7 @@ var dupNames = [...]string{"none", "immediate", "after-later-round", "late", "mi
 
 // targetedHoldCap bounds how long the targeted mode keeps C's broadcast back (pacing only; a
 // one-way message held back trips no real-time timeout of the code under test).
-const targetedHoldCap = 10 * time.Second
+const targetedHoldCap = 30 * time.Second
 
 // dupRec is a delivered one-way envelope that may be delivered again.
 type dupRec struct {
@@ -128,6 +128,7 @@ type sched struct {
 	redeliv      map[string]int // kind -> count
 	tgtCompleted int
 	tgtAbandoned int
+	tgtWhy       string
 
 	// logical clock over sends and completed deliveries (pedersen pubkey-channel analysis)
 	tick        int64
@@ -329,7 +330,7 @@ func (s *sched) run() {
 				if s.tgtSince.IsZero() {
 					s.tgtSince = time.Now()
 				} else if time.Since(s.tgtSince) > targetedHoldCap {
-					s.abandonTarget()
+					s.abandonTarget("hold-cap")
 				}
 
 				continue
@@ -357,8 +358,8 @@ func (s *sched) run() {
 			}
 		}
 		if len(elig) == 0 && s.mode == modeRedeliverTargeted {
-			if len(held) > 0 && settled(3*time.Second) {
-				s.abandonTarget() // nothing else moves and no faster sender showed up
+			if len(held) > 0 && settled(10*time.Second) {
+				s.abandonTarget("nothing-moved") // nothing else moves and no faster sender showed up
 			} else {
 				s.idleDup()
 			}
@@ -452,13 +453,14 @@ func (s *sched) idleDup() {
 	s.idle()
 }
 
-func (s *sched) abandonTarget() {
+func (s *sched) abandonTarget(why string) {
 	if s.tgtPhase != 0 {
 		return
 	}
 	s.tgtPhase = 1
 	s.mu.Lock()
 	s.tgtAbandoned++
+	s.tgtWhy = why
 	s.mu.Unlock()
 }
 
@@ -582,7 +584,12 @@ func (s *sched) deliver(e *fakenet.Envelope) {
 // deliverClone delivers a byte-identical copy of an already delivered one-way envelope again
 // (retransmission). Returns false when the receiver's re-delivery budget is used up.
 func (s *sched) deliverClone(r *dupRec, kind string) bool {
-	if s.dupUsed[r.to] >= s.dupBudget {
+	// one slot of every receiver's budget is reserved for the targeted pattern
+	limit := s.dupBudget
+	if kind != "targeted" {
+		limit--
+	}
+	if s.dupUsed[r.to] >= limit {
 		return false
 	}
 	s.dupUsed[r.to]++
@@ -687,6 +694,7 @@ type schedStats struct {
 	TargetC      int            `json:"targeted_laggard_C"`
 	TgtCompleted int            `json:"targeted_pattern_completed"`
 	TgtAbandoned int            `json:"targeted_pattern_abandoned"`
+	TgtWhy       string         `json:"targeted_pattern_abandoned_why,omitempty"`
 }
 
 func (s *sched) stats() schedStats {
@@ -707,7 +715,7 @@ func (s *sched) stats() schedStats {
 	return schedStats{Mode: modeNames[s.mode], Victim: s.victim, Sent: s.sent.Load(), Delivered: s.done.Load(),
 		Inversions: s.inversions, RoundOverlap: s.roundOverlap, LeftInFlight: s.leftInFlight, AgedOut: s.agedOut, MaxPool: s.maxPool, Classes: cl,
 		DupProfile: dupNames[s.dupProfile], Redeliveries: rd, RedelivTotal: total, TargetB: s.tgtB, TargetC: s.tgtC,
-		TgtCompleted: s.tgtCompleted, TgtAbandoned: s.tgtAbandoned}
+		TgtCompleted: s.tgtCompleted, TgtAbandoned: s.tgtAbandoned, TgtWhy: s.tgtWhy}
 }
 
 // orderHash identifies the schedule: the sequence of (from, to, class) deliveries.
